@@ -227,39 +227,28 @@ theorem persist_ok {j : Journal} {msg : Bytes} {h : Handle} {dir : Dir} {n : Int
       simp only [insMsg, hany', Bool.false_eq_true, if_false]
       exact ⟨hf'.1, hf'.2, trivial, trivial⟩
 
-/-- the six ways through `set_seq_num` -/
+/-- the four ways through `set_seq_num` -/
 theorem setSeqNum_cases (j : Journal) (h : Handle) (out inn : Option Int) :
     (setSeqNum j h out inn = (j, .set h (some .assertion))) ∨
     (setSeqNum j h out inn = (j, .set { h with nextOut := effOut h out } (some .assertion))) ∨
     (setSeqNum j h out inn =
         (j, .set { h with nextOut := effOut h out, nextIn := effIn h inn } (some .overflow))) ∨
-    ((Op.setSeqNum h out inn).HalfApplies = true ∧
-      setSeqNum j h out inn =
-        (updBoth j (effIn h inn - 1) (effOut h out - 1) h.key,
-          .set { h with nextOut := effOut h out, nextIn := effIn h inn } (some .overflow))) ∨
-    ((Op.setSeqNum h out inn).HalfApplies = true ∧
-      setSeqNum j h out inn =
-        (delFrom (updBoth j (effIn h inn - 1) (effOut h out - 1) h.key) h.key (effIn h inn) .inbound,
-          .set { h with nextOut := effOut h out, nextIn := effIn h inn } (some .overflow))) ∨
-    ((Op.setSeqNum h out inn).HalfApplies = false ∧
-      fits (effIn h inn) = true ∧ fits (effOut h out) = true ∧
+    (fits (effIn h inn) = true ∧ fits (effOut h out) = true ∧
       fits (effIn h inn - 1) = true ∧ fits (effOut h out - 1) = true ∧ fits h.key = true ∧
       setSeqNum j h out inn =
         (delFrom (delFrom (updBoth j (effIn h inn - 1) (effOut h out - 1) h.key) h.key (effIn h inn) .inbound)
             h.key (effOut h out) .outbound,
           .set { h with nextOut := effOut h out, nextIn := effIn h inn } none)) := by
-  unfold setSeqNum Op.HalfApplies
+  unfold setSeqNum
   by_cases h1 : out.any (· ≤ 0) = true
   · simp [h1]
   by_cases h2 : inn.any (· ≤ 0) = true
   · simp [h1, h2]
-  by_cases h3 : (fits (effIn h inn - 1) && fits (effOut h out - 1) && fits h.key) = true
-  · by_cases h4 : fits (effIn h inn) = true
-    · by_cases h5 : fits (effOut h out) = true
-      · simp only [Bool.and_eq_true] at h3
-        simp [h1, h2, h3, h4, h5]
-      · simp [h1, h2, h3, h4, h5]
-    · simp [h1, h2, h3, h4]
+  by_cases h3 : (fits (effIn h inn - 1) && fits (effOut h out - 1) && fits h.key &&
+      fits (effIn h inn) && fits (effOut h out)) = true
+  · have h3' := h3
+    simp only [Bool.and_eq_true] at h3'
+    simp [h1, h2, h3'.1.1.1.1, h3'.1.1.1.2, h3'.1.1.2, h3'.1.2, h3'.2]
   · simp [h1, h2, h3]
 
 end AsyncFix.Model.Journal
